@@ -26,6 +26,8 @@ UP_SRCS = ["events/events_network_selectstats.c", "datastruct/timerqueue.c", "ne
 # black-box fallback of h_allocfail.c: the files it #includes white-box, compiled separately
 EV_BB_SRCS = ["datastruct/elasticarray.c", "datastruct/ptrheap.c", "events/events.c", "events/events_immediate.c",
               "events/events_timer.c", "events/events_network.c"]
+# black-box fallback of h_af_upper.c: the files it #includes white-box, compiled separately
+UP_BB_SRCS = EV_BB_SRCS + ["network/network_read.c", "network/network_write.c"]
 KCAP = 70          # above this many allocations the k's are sampled (all k <= 24, then every third)
 
 
@@ -374,7 +376,7 @@ def make_components(ctx):
              "growing size with the unconsumed bytes checked after a failed wait) "
              "x {no fault, failat k, failfrom k : every k}; judged by the L1 rules of pmodel upmon only",
         monitor_args=["upmon"], ldflags=[WRAP + ",--wrap=poll,--wrap=time"], ignore_l2=True, cpu=[],
-        env={"H_UPPER_TMP": ctx.tmp}, **common)
+        env={"H_UPPER_TMP": ctx.tmp}, bb_ok=True, bb_srcs=UP_BB_SRCS, bb_fresh=True, **common)
     ust = vlib.Component(
         "upstart", "h_af_upper.c", UP_SRCS, ["upmodel"], None, nontrivial=lambda c: c[0].startswith("fail"),
         rule="upstart: start / registration / teardown calls of network_read, network_write, network_accept, "
@@ -382,7 +384,8 @@ def make_components(ctx):
              "(fixed descriptors, harness-side listener) x {no fault, failat k, failfrom k : every k}; lock-step with "
              "Model/AllocFail.lean: live library blocks, request sizes in order (hence the number of consultations), "
              "which descriptors have a reader/writer registered, number of immediate events and timers, pool fill",
-        monitor_args=["upmon"], ldflags=[WRAP + ",--wrap=poll,--wrap=time"], cpu=[], env={"H_UPPER_TMP": ctx.tmp}, **common)
+        monitor_args=["upmon"], ldflags=[WRAP + ",--wrap=poll,--wrap=time"], cpu=[], env={"H_UPPER_TMP": ctx.tmp},
+        bb_ok=True, bb_srcs=UP_BB_SRCS, bb_fresh=True, **common)
     return [(cont, bases_containers), (ev, bases_events), (up, bases_upper), (ust, bases_upstart)]
 
 
